@@ -169,12 +169,11 @@ void runCS(Case& c, unsigned cs, bool mid, unsigned nops) {
 void run_gdeque(Case& c) {
   unsigned cs   = c.rng.pick({1u, 2u, 2u, 3u, 3u, 4u, 4u, 64u});
   bool tracked  = c.rng.below(3) != 0;
-  bool mid      = c.rng.below(2) == 0; // insertion in the middle enabled
+  bool mid      = true; // insertion in the middle is part of every case
   unsigned nops = c.pickOps();
   std::string cfg = "cs" + std::to_string(cs) + (tracked ? "|tracked" : "|pod") + (mid ? "|mid" : "|ends");
   if (!c.begin("gdeque", cfg,
-          J().kv("chunk", cs).kv("elem", tracked ? "tracked" : "pod").kv("emplace_in_middle", mid).kv("nops", nops),
-               mid ? "emplace-in-middle" : ""))
+          J().kv("chunk", cs).kv("elem", tracked ? "tracked" : "pod").kv("emplace_in_middle", mid).kv("nops", nops)))
     return;
   if (tracked)
     runCS<Tracked>(c, cs, mid, nops);
